@@ -562,7 +562,7 @@ def run(ctx):
             check_family(ctx, fam, jobs)
             run_model_jobs(ctx, model, jobs)
         return
-    n_fam = 44 if quick else 900
+    n_fam = 44 if quick else 2500
     fams = [gen_family(rng, measure=m, subpix=s) for m in mu.MEASURES for s in (1, 2, 4)]
     for i, f in enumerate(fams):                      # every measure x subpix with and without aggregation
         f["agg"] = True
@@ -582,6 +582,6 @@ def run(ctx):
         for pc in json.load(open(corpus)):
             ctx.count("corpus_pipelines")
             run_pipeline_case(ctx, pc)
-    for _ in range(36 if quick else 1200):
+    for _ in range(36 if quick else 3000):
         run_pipeline_case(ctx, gen_pipeline_case(rng))
     ctx.stats["model_calls"] = model.calls
